@@ -328,6 +328,17 @@ def main(ck):
             for t in tails + html_frags:
                 for m in ("plain", "template"):
                     cases.append({"hex": (hdr + t).hex(), "mode": m, "origin": "doctype", "mut": "-", "run": False})
+        # pseudo open tags in the HTML part of a template ('<?php' directly followed by a non-blank): one, two, three of
+        # them, with and without a real '<?php ' block before / between / after; also a '#!' script (lexed as a template).
+        # The lexer must come back for every one of them (the watchdog reports a hang).
+        pseudo = [b"<?phpinfo", b"<?php_x", b"<?phpA", b"<?php;", b"<?php?>", b"<?PHP", b"<?ph", b"<?="]
+        real = b"<?php echo 1; ?>"
+        for i, a in enumerate(pseudo):
+            for b in (pseudo[(i + 1) % len(pseudo)], a):
+                for src in (b"<p>" + a + b"</p>\n", b"<p>" + a + b" and " + b + b"</p>\n", a + b, b"<p>" + a + b"</p>" + real + b"<p>" + b + b"</p>\n",
+                            b"<p>" + a + b" " + b + b"</p>\n" + real + b"\n", real + b"\n<p>" + a + b" " + b + b" " + a + b"</p>\n",
+                            b"#!/usr/bin/env origami\n" + a + b" " + b + b"\n"):
+                    cases.append({"hex": src.hex(), "mode": "template", "origin": "opentag", "mut": "-", "run": False})
         for base in (b"", b"$a = 1;\n", b"$a = ", b"f(", b"'s' ", b"// c\n"):
             for t in tails:
                 for m in ("plain", "template"):
